@@ -1216,6 +1216,27 @@ spec fn decl_lit_clash(st: Statement) -> bool {
         _ => false,
     }
 }
+/// how many of the first n ids are not in s: the termination measure of inner_bake_type
+spec fn unseen(n: nat, s: Set<TyID>) -> nat decreases n {
+    if n == 0 { 0 } else { unseen((n - 1) as nat, s) + (if s.contains(TyID((n - 1) as usize)) { 0nat } else { 1nat }) }
+}
+broadcast proof fn lemma_unseen_mono(n: nat, s: Set<TyID>, t: Set<TyID>)
+    requires forall|k: TyID| s.contains(k) ==> t.contains(k),
+    ensures #![trigger unseen(n, s), unseen(n, t)] unseen(n, t) <= unseen(n, s),
+    decreases n
+{ if n > 0 { lemma_unseen_mono((n - 1) as nat, s, t); } }
+proof fn lemma_unseen_strict(n: nat, s: Set<TyID>, t: Set<TyID>, a: TyID)
+    requires forall|k: TyID| s.contains(k) ==> t.contains(k), (a.0 as int) < n, n <= usize::MAX, !s.contains(a), t.contains(a),
+    ensures unseen(n, t) < unseen(n, s),
+    decreases n
+{
+    if n > 0 {
+        if a.0 == (n - 1) as usize { lemma_unseen_mono((n - 1) as nat, s, t); assert(TyID((n - 1) as usize) == a); }
+        else { lemma_unseen_strict((n - 1) as nat, s, t, a); }
+    }
+}
+/// every key is (the id of) a node
+spec fn keys_below(ks: Set<TyID>, n: int) -> bool { forall|k: TyID| #[trigger] ks.contains(k) ==> (k.0 as int) < n }
 /// the copies made so far are nodes of the graph
 spec fn seen_ok(m: Map<TyID, TyID>, n: int) -> bool { forall|k: TyID| #[trigger] m.contains_key(k) ==> (m[k].0 as int) < n }
 
@@ -1332,6 +1353,12 @@ impl TypeChecker {
         forall|i: int| 0 <= i < self.variables@.len() ==> ((#[trigger] self.variables@[i].ty).0 as int) < self.types@.len()
     }
     spec fn inv2(&self) -> bool { self.inv() && self.vars_valid() }
+    /// what every loop of inner_bake_type keeps: invariant, frame, the graph does not grow, the classes
+    /// already marked (s1) stay marked, every marked key is a node
+    spec fn bake_inv(&self, old: &TypeChecker, seen: Set<TyID>, s1: Set<TyID>, n: nat) -> bool {
+        self.inv2() && self.grows(old) && self.types@.len() == n && n == old.types@.len() && keys_below(seen, n as int)
+            && (forall|k: TyID| s1.contains(k) ==> seen.contains(k)) && vstd::std_specs::hash::obeys_key_model::<TyID>()
+    }
     /// what every loop of inner_copy keeps: the invariant, the frame, the copies made so far are nodes,
     /// the nodes that existed at entry (ts0) and at the last snapshot (sq) are untouched
     spec fn copy_inv(&self, old: &TypeChecker, seen: Map<TyID, TyID>, ts0: Seq<TypeNode>, sq: Seq<TypeNode>, new_ty: TyID, old_ty: TyID) -> bool {
@@ -2144,6 +2171,121 @@ impl TypeChecker {
 //@| for ty in args.iter()
             invariant self.copy_inv(old(self), seen@, ts0, sq, new_ty, old_ty), seen_ext(m1, seen@), seen_ext(ml, seen@), ids_below(copied@, self.types@.len() as int), self.types@.len() >= l9, //# C02,C07 inner_copy.loop9.aux1
 //@   endloop
+//@ end
+//@ fn sylt-compiler/src/typechecker.rs inner_bake_type
+//@   in TypeChecker
+//@   props C07
+//@   attr #[verifier::loop_isolation(false)]
+//@   ret r
+//@   rewrite equivalent
+//@- return seen[&a].clone();
+//@+ return (match seen.get(&a) { Some(known) => known.clone(), None => unreachable!() });
+//@   why vstd has no specification for Index on HashMap; map[&k] is get(&k) that panics when the key is absent - the panic is kept as the obligation unreachable!()
+//@   endrewrite
+//@   rewrite equivalent
+//@- Type::Tuple(tys) => RuntimeType::Tuple(
+//@-     tys.iter()
+//@-         .map(|ty| self.inner_bake_type(*ty, seen))
+//@-         .collect(),
+//@- ),
+//@+ Type::Tuple(tys) => RuntimeType::Tuple({ let mut baked: Vec<RuntimeType> = Vec::new();
+//@+ for ty in tys.iter() { baked.push(self.inner_bake_type(*ty, seen)); }
+//@+ baked }),
+//@   why closure capturing &mut self + collect; map/collect into a Vec pushes one result per element, in order
+//@   endrewrite
+//@   rewrite equivalent
+//@- args.iter()
+//@-     .map(|ty| self.inner_bake_type(*ty, seen))
+//@-     .collect(),
+//@+ { let mut baked: Vec<RuntimeType> = Vec::new();
+//@+ for ty in args.iter() { baked.push(self.inner_bake_type(*ty, seen)); }
+//@+ baked },
+//@   why as above
+//@   endrewrite
+//@   rewrite equivalent count=2
+//@- fields
+//@-     .iter()
+//@-     .map(|(name, ty)| (name.clone(), self.inner_bake_type(ty.1, seen)))
+//@-     .collect(),
+//@+ { let mut baked: BTreeMap<String, RuntimeType> = BTreeMap::new();
+//@+ for (name, ty) in fields.iter() { baked.insert(name.clone(), self.inner_bake_type(ty.1, seen)); }
+//@+ baked },
+//@   why as above, into a BTreeMap
+//@   endrewrite
+//@   rewrite equivalent
+//@- variants
+//@-     .iter()
+//@-     .map(|(name, ty)| (name.clone(), self.inner_bake_type(ty.1, seen)))
+//@-     .collect(),
+//@+ { let mut baked: BTreeMap<String, RuntimeType> = BTreeMap::new();
+//@+ for (name, ty) in variants.iter() { baked.insert(name.clone(), self.inner_bake_type(ty.1, seen)); }
+//@+ baked },
+//@   why as above
+//@   endrewrite
+//@   rewrite rule:R-opaque
+//@- match self.namespace_to_file.get(&span.file_id).unwrap() {
+//@-     FileOrLib::Lib(name) => name.to_string(),
+//@-     FileOrLib::File(path) => path.to_string_lossy().to_string(),
+//@- },
+//@+ opaque_string(),
+//@   why the file name of an externblob's declaration (a string used in messages only) is replaced by an uninterpreted string: FileOrLib / Path are placeholders; with it the `.unwrap()` of that lookup is NOT verified (it needs every span's file id to be a key of namespace_to_file, which only the unverified glue establishes)
+//@   endrewrite
+//@   spec
+        requires old(self).inv2(), old(self).valid(a), //# C07 inner_bake_type.pre.id_in_range
+            keys_below(old(seen)@.dom(), old(self).types@.len() as int), //# C07 inner_bake_type.pre.seen_keys_are_nodes
+            vstd::std_specs::hash::obeys_key_model::<TyID>(), //# C07 inner_bake_type.pre.key_model
+        ensures final(self).inv2(), final(self).grows(old(self)), final(self).types@.len() == old(self).types@.len(), //# C02,C07 inner_bake_type.keeps_invariant
+            keys_below(final(seen)@.dom(), final(self).types@.len() as int), //# C07 inner_bake_type.seen_keys_stay_nodes
+            forall|k: TyID| old(seen)@.contains_key(k) ==> #[trigger] final(seen)@.contains_key(k), //# C07 inner_bake_type.seen_only_grows
+        decreases unseen(old(self).types@.len(), old(seen)@.dom()), //# C07 inner_bake_type.terminates_every_call_marks_a_class_not_seen_before
+//@   endspec
+//@   ghost entry
+        let ghost n = self.types@.len(); let ghost s0 = seen@.dom();
+        broadcast use vstd::std_specs::hash::group_hash_axioms, lemma_unseen_mono;
+        proof { axiom_string_key_order(); assert(self.types@.len() == self.types.len()); }
+//@   endghost
+//@   ghost before
+//@| let res = match self.find_type(a) {
+        let ghost s1 = seen@.dom();
+        assert(s1.contains(a) && !s0.contains(a)); //# C07 inner_bake_type.the_class_is_marked_before_its_parts_are_visited
+        proof { lemma_unseen_strict(n, s0, s1, a); }
+//@   endghost
+//@   loop 1
+//@| for ty in tys.iter()
+            invariant self.bake_inv(old(self), seen@.dom(), s1, n), ids_below(tys@, n as int), //# C07 inner_bake_type.loop1.aux1
+//@   endloop
+//@   loop 2
+//@| for ty in args.iter()
+            invariant self.bake_inv(old(self), seen@.dom(), s1, n), ids_below(args@, n as int), self.valid(ret), //# C07 inner_bake_type.loop2.aux1
+//@   endloop
+//@   loop 3 binder it
+//@| for (name, ty) in fields.iter()
+            invariant self.bake_inv(old(self), seen@.dom(), s1, n), fields_in_range(fields, n as int), vstd::std_specs::btree::key_obeys_cmp_spec::<String>(), //# C07 inner_bake_type.loop3.aux1
+                forall|j: int| 0 <= j < it.seq().len() ==> fields@.contains_pair(*(#[trigger] it.seq()[j]).0, *it.seq()[j].1), //# - inner_bake_type.loop3.aux2
+//@   endloop
+//@   loop 4 binder it
+//@| for (name, ty) in fields.iter()
+            invariant self.bake_inv(old(self), seen@.dom(), s1, n), fields_in_range(fields, n as int), vstd::std_specs::btree::key_obeys_cmp_spec::<String>(), //# C07 inner_bake_type.loop4.aux1
+                forall|j: int| 0 <= j < it.seq().len() ==> fields@.contains_pair(*(#[trigger] it.seq()[j]).0, *it.seq()[j].1), //# - inner_bake_type.loop4.aux2
+//@   endloop
+//@   loop 5 binder it
+//@| for (name, ty) in variants.iter()
+            invariant self.bake_inv(old(self), seen@.dom(), s1, n), fields_in_range(variants, n as int), vstd::std_specs::btree::key_obeys_cmp_spec::<String>(), //# C07 inner_bake_type.loop5.aux1
+                forall|j: int| 0 <= j < it.seq().len() ==> variants@.contains_pair(*(#[trigger] it.seq()[j]).0, *it.seq()[j].1), //# - inner_bake_type.loop5.aux2
+//@   endloop
+//@ end
+//@ fn sylt-compiler/src/typechecker.rs bake_type
+//@   in TypeChecker
+//@   props C07
+//@   ret r
+//@   spec
+        requires old(self).inv2(), old(self).valid(a), //# C07 bake_type.pre.id_in_range
+        ensures final(self).inv2(), final(self).grows(old(self)), //# C02,C07 bake_type.keeps_invariant
+//@   endspec
+//@   ghost entry
+        broadcast use vstd::std_specs::hash::group_hash_axioms;
+        proof { axiom_tyid_hash_key(); }
+//@   endghost
 //@ end
 //@ fn sylt-compiler/src/typechecker.rs copy
 //@   in TypeChecker
